@@ -356,6 +356,18 @@ def gen_random(scn, rng, depth, weights=None):
             nxt = {'Freeze': ['Down', 'Down', 'Up'], 'Down': ['Up', 'Freeze', 'Up'],
                    'Up': ['Down', 'Freeze', 'Down']}.get(last_state.get(s), ['Down', 'Up', 'Freeze'])
             ev = rng.choice(nxt)
+            if rng.random() < 0.15 and apps and len(servers) > 1:
+                # an unschedule mark is good for ONE eviction: freeze with marks, cycle,
+                # then freeze another server with nothing marked
+                s2 = rng.choice(sorted(servers - {s}))
+                hist.append(('Freeze', [s]))
+                for a in rng.sample(sorted(apps), min(len(apps), rng.choice([1, 2, 3]))):
+                    hist.append(('MarkUnschedule', [a]))
+                hist.append(('Cycle', []))
+                hist.append(('Freeze', [s2]))
+                hist.append(('Cycle', []))
+                last_state[s] = last_state[s2] = 'Freeze'
+                continue
             if rng.random() < 0.3:
                 # chains that separate "state changed" from "went down": the retention
                 # clock starts when the server goes DOWN, whatever it was before
